@@ -19,6 +19,8 @@ def run_property(prop, tier, seed):
     rnd.shuffle(jobs)
     known = C.known_for(prop)
     known_ids = sorted({k["id"] for k in C.load_known().get("findings", [])})
+    listed = {k["id"] for k in known}
+    jobs = [j for j in jobs if not j.get("known") or j["known"] in listed]
     e1 = [j for j in jobs if j["engine"] == "E1"]
     e2 = [j for j in jobs if j["engine"] == "E2"]
     scratch = C.make_scratch(prop)
